@@ -150,11 +150,18 @@ def check(case):
     if got_assign != n_assign:
         res.fail(("assignment_rule_count", mixed), got=got_assign, expected=n_assign, order=order_tag)
         return res
+    for r_ in M.get_rules():
+        # "every assignment rule becomes a repeated assignment"
+        freq = r_[2] if len(r_) > 2 else "repeated"
+        if r_[0] == "assignment" and freq not in ("repeated", "repeat"):
+            res.fail(("assignment_rule_not_repeated",), rule=str(r_[1])[:200], frequency=str(freq))
+            return res
     with specmod.quiet():
         I = ModelCSimInterface(M)
         I.py_prep_deterministic_simulation()
     params0 = {p["id"]: p["value"] for p in d["params"]}
-    for st_ in case["states"]:
+    for k_state, st_ in enumerate(case["states"]):
+        t_apply = 0.0 if k_state % 2 == 0 else 1.75       # the document has no explicit time dependence: any time will do
         try:
             est, epar, ederiv = reference(d, st_, params0)
         except ref.Undefined:
@@ -166,7 +173,7 @@ def check(case):
         x = np.zeros(len(s2i))
         for s, i in s2i.items():
             x[i] = st_.get(s, 0.0)
-        I.py_apply_repeated_rules(x, 0.0, True)
+        I.py_apply_repeated_rules(x, t_apply, True)
         for sid in sids:
             if abs(x[s2i[sid]] - est[sid]) > 1e-9 * max(1.0, abs(est[sid])):
                 what = "assignment_rule_value" if any(rl["var"] == sid and rl["kind"] == "assignment" for rl in d["rules"]) \
@@ -174,7 +181,7 @@ def check(case):
                 res.fail((what, mixed), species=sid, got=float(x[s2i[sid]]), expected=est[sid], order=order_tag, state=st_)
                 return res
         dx = np.zeros(len(x))
-        I.py_calculate_deterministic_derivative(x, dx, 0.0)
+        I.py_calculate_deterministic_derivative(x, dx, t_apply)
         scale = 1.0 + max(abs(v) for v in ederiv.values())
         for sid in sids:
             if abs(dx[s2i[sid]] - ederiv[sid]) > 1e-9 * scale:
